@@ -214,10 +214,20 @@ def run(ck, prog, tier, load):
         ck.ob("C04-c.shutdown-flushes-first", "Dispatcher::poll", g and fl, poll, bb, "socket shutdown happens under SHUTDOWN (%s) and after poll_flush completed (%s)" % (g, fl))
     wd = [bb for bb, st, e in agg_sites(poll, r"Poll::Ready$") if agg_chain(e)[0][:2] == ["core::task::poll::Poll::Ready", "core::result::Result::Ok"] and guarded_by(poll, bb, flag_edge("WRITE_DISCONNECT", True))[0]]
     ck.ob("C04-c.write-disconnect-ends", "Dispatcher::poll", len(wd) >= 2, poll, wd[0] if wd else None, "WRITE_DISCONNECT ends the task with Ready(Ok(())) in the shutdown branch and after the write loop (%d exits)" % len(wd))
-    # the stored stream error (recorded when an error response was queued) ends the task only after that response left
+    error_exit(ck, prog, "C04-c")
+
+
+def error_exit(ck, prog, P):
+    """the stored stream error (recorded when an error response was queued) ends the task only after that response left
+    the write buffer and no dispatched request is still unanswered; shared by C04 (all bytes flushed) and C02 (exactly one
+    response per dispatched request)"""
+    poll = disp_poll(prog)
     errs = [(bb, e) for bb, e in poll.ret_exprs() if any(x[0] == "call" and rx(r"Option.*::take$").search(x[1] or "") and e_has_field(x, r"\.error$") for x in walk(e))]
-    ck.anchor("C04-c", len(errs), 1, "return of the stored stream error (inner.error.take()) in Dispatcher::poll")
+    ck.anchor(P, len(errs), 1, "return of the stored stream error (inner.error.take()) in Dispatcher::poll")
     wb_empty = lambda c, lab: bool(bool_test(c, lab)) and bool_test(c, lab)[1] is True and bool_test(c, lab)[0][0] == "call" and rx(r"BytesMut::is_empty$").search(bool_test(c, lab)[0][1] or "") is not None and e_has_field(bool_test(c, lab)[0], r"write_buf$")
+    st_none = lambda c, lab: bool(bool_test(c, lab)) and bool_test(c, lab)[1] is True and bool_test(c, lab)[0][0] == "call" and rx(r"State.*::is_none$").search(bool_test(c, lab)[0][1] or "") is not None
     for bb, e in errs:
         ok, wit = guarded_by(poll, bb, wb_empty)
-        ck.ob("C04-c.error-exit-after-flush", "Dispatcher::poll", ok, poll, bb, "the connection future resolves with the stored error only on the edge write_buf.is_empty(): the error response queued with it has been written completely", witness=poll.path_lines(wit))
+        ck.ob(P + ".error-exit-after-flush", "Dispatcher::poll", ok, poll, bb, "the connection future resolves with the stored error only on the edge write_buf.is_empty(): the error response queued with it has been written completely", witness=poll.path_lines(wit))
+        ok2, wit2 = guarded_by(poll, bb, st_none)
+        ck.ob(P + ".error-exit-after-responses", "Dispatcher::poll", ok2, poll, bb, "... and only on the edge state.is_none(): no dispatched request is still waiting for its response (returning earlier drops the pending handler and its response is never written)", witness=poll.path_lines(wit2))
